@@ -158,6 +158,39 @@ impl<'a, K, V> vstd::std_specs::iter::IteratorSpecImpl for Iter<'a, K, V> {
     open spec fn peek(&self, index: int) -> Option<(&'a K, &'a V)> { None }
 }
 
+impl<'a, K, V> vstd::std_specs::iter::IteratorSpecImpl for Keys<'a, K, V> {
+    open spec fn obeys_prophetic_iter_laws(&self) -> bool { true }
+    #[verifier::prophetic]
+    open spec fn remaining(&self) -> Seq<&'a K> {
+        Seq::new(it_rem(self.iter).len(), |i: int| it_rem(self.iter)[i].0)
+    }
+    #[verifier::prophetic]
+    open spec fn will_return_none(&self) -> bool { it_none(self.iter) }
+    open spec fn decrease(&self) -> Option<nat> { it_dec(self.iter) }
+    open spec fn peek(&self, index: int) -> Option<&'a K> { None }
+}
+
+impl<'a, T> vstd::std_specs::iter::IteratorSpecImpl for SetIter<'a, T> {
+    open spec fn obeys_prophetic_iter_laws(&self) -> bool { true }
+    #[verifier::prophetic]
+    open spec fn remaining(&self) -> Seq<&'a T> { it_rem(self.iter) }
+    #[verifier::prophetic]
+    open spec fn will_return_none(&self) -> bool { it_none(self.iter) }
+    open spec fn decrease(&self) -> Option<nat> { it_dec(self.iter) }
+    open spec fn peek(&self, index: int) -> Option<&'a T> { None }
+}
+
+/// trigger plumbing (proved): the same one and two levels up
+pub broadcast proof fn lemma_keys_elem<'a, K, V>(it: Keys<'a, K, V>, i: int)
+    requires 0 <= i < it.iter.iter.remaining().len(),
+    ensures it.remaining()[i] == slot_refs(#[trigger] it.iter.iter.remaining()[i]).0,
+{}
+
+pub broadcast proof fn lemma_setiter_elem<'a, T>(it: SetIter<'a, T>, i: int)
+    requires 0 <= i < it.iter.iter.iter.remaining().len(),
+    ensures it.remaining()[i] == slot_refs(#[trigger] it.iter.iter.iter.remaining()[i]).0,
+{}
+
 /// trigger plumbing (proved): a slot the inner slice iterator will yield is an item `Iter` will yield
 pub broadcast proof fn lemma_iter_elem<'a, K, V>(it: Iter<'a, K, V>, i: int)
     requires 0 <= i < it.iter.remaining().len(),
